@@ -444,10 +444,6 @@ fn expr_sql(e: &Expr, names: &[String]) -> String {
     }
 }
 
-/// ON / WHERE printed at the top level without the outer parentheses of a conjunction: `x AND y` is what people write
-/// (kept fully parenthesised below the top)
-fn _unused() {}
-
 // ---- reference semantics of a query (Rust port of Model/JoinSpec.v; search mode and statistics only)
 fn query_spec(q: &Query) -> Option<Rows> {
     let mut cur: Rows = q.tabs[0].rows.clone();
@@ -564,7 +560,9 @@ fn emit_sql(w: &mut CaseWriter, sut: &mut Sut, q: &Query, stream: &str) {
     let shown: Vec<String> = if all_same { vec![outs[0].coq()] } else { outs.iter().map(|o| o.coq()).collect() };
     let term = format!("Sql {} {} {} [{}]", q.coq(), cbool(q.qual), cbool(all_same), shown.join("; "));
     let spec = query_spec(q);
-    let has_null_or_dup = q.tabs.iter().any(|t| t.rows.iter().any(|r| r.iter().any(|v| v.is_null())));
+    let has_null_or_dup = q.tabs.iter().any(|t| t.rows.iter().any(|r| r.iter().any(|v| v.is_null()))) || q.tabs.iter().any(|t| {
+        (1..t.cols.len()).any(|c| { let mut vs: Vec<String> = t.rows.iter().map(|r| r[c].to_tok()).collect(); let n0 = vs.len(); vs.sort(); vs.dedup(); vs.len() < n0 })
+    });
     let nontrivial = spec.as_ref().map(|s| !s.is_empty()).unwrap_or(false) && has_null_or_dup && q.tabs.iter().all(|t| !t.rows.is_empty());
     let jts: String = q.joins.iter().map(|(j, _)| j.ch()).collect();
     w.push(term, q.line(), nontrivial, &format!("{}:sql:{}way:{}", stream, q.tabs.len(), jts));
